@@ -1,5 +1,6 @@
 """C38 -- hy.gensym returns distinct reserved symbols under any thread schedule."""
 import dis
+import json
 import re
 import sys
 import threading
@@ -266,6 +267,147 @@ def stall_oracle(chk, hy, stalls):
                          "pairwise distinct symbols", how)
 
 
+INTERLEAVE_CODE = r"""
+# Two threads make the FIRST gensym calls of a freshly (re)loaded hy.core.util; thread A runs k1 bytecodes of that module,
+# then B runs k2, then A runs on (B takes over whenever A blocks), then B.  Needs neither the model nor the translator.
+import sys, json, threading, importlib
+import hy, hy.core.util as U
+K1, K2 = json.loads(sys.argv[1]), json.loads(sys.argv[2])
+FILE = U.__file__
+
+class Ctl:
+    def __init__(self, k1, k2):
+        self.cv = threading.Condition(); self.turn = "A"; self.quota = {"A": k1, "B": k2}; self.done = set(); self.steals = 0
+    def other(self, t): return "B" if t == "A" else "A"
+    def wait_turn(self, t):
+        while self.turn != t and self.other(t) not in self.done:
+            if not self.cv.wait(0.05):
+                self.turn = t; self.steals += 1          # the partner is blocked (on the lock): go on
+                self.cv.notify_all()
+    def step(self, t):
+        with self.cv:
+            self.wait_turn(t)
+            q = self.quota[t]
+            if q is not None:
+                if q == 0:
+                    self.quota[t] = None
+                    if self.other(t) not in self.done:
+                        self.turn = self.other(t); self.cv.notify_all(); self.wait_turn(t)
+                else:
+                    self.quota[t] = q - 1
+    def finish(self, t):
+        with self.cv:
+            self.done.add(t); self.turn = self.other(t); self.cv.notify_all()
+
+def run_trial(k1, k2, warm):
+    importlib.reload(U)
+    g = U.gensym
+    ctl = Ctl(k1, k2)
+    out = {"A": [], "B": []}
+    def tracer(t):
+        def local(frame, event, arg):
+            if event == "opcode": ctl.step(t)
+            return local
+        def glob(frame, event, arg):
+            if frame.f_code.co_filename == FILE:
+                frame.f_trace_opcodes = True
+                return local
+            return None
+        return glob
+    def work(t):
+        sys.settrace(tracer(t))
+        try:
+            out[t].append(str(g("w"))); 
+        except Exception as e:
+            out[t].append("ERR " + repr(e))
+        finally:
+            sys.settrace(None); ctl.finish(t)
+        try:
+            out[t].append(str(g("w")))
+        except Exception as e:
+            out[t].append("ERR " + repr(e))
+    ta, tb = threading.Thread(target=work, args=("A",)), threading.Thread(target=work, args=("B",))
+    ta.start(); tb.start(); ta.join(20); tb.join(20)
+    return out["A"] + out["B"], ctl.steals
+
+run_trial(0, 0, True)          # switches per-opcode events on for the code objects
+res = {"trials": 0, "dups": [], "errors": [], "steals": 0}
+for k1 in K1:
+    for k2 in K2:
+        syms, steals = run_trial(k1, k2, False)
+        res["trials"] += 1; res["steals"] += steals
+        if any(x.startswith("ERR") for x in syms): res["errors"].append({"k1": k1, "k2": k2, "symbols": syms})
+        elif len(set(syms)) != len(syms): res["dups"].append({"k1": k1, "k2": k2, "symbols": syms})
+print(json.dumps(res))
+"""
+
+
+def first_calls_oracle(chk, thorough):
+    """the process's first gensym calls, racing: fresh module state in a fresh interpreter, two context switches at
+    bytecode granularity anywhere in hy/core/util.hy (helpers included)"""
+    k1 = list(range(0, 50, 1 if thorough else 2))
+    k2 = list(range(0, 70, 1 if thorough else 2))
+    rc, out, err = vlib.run_impl(INTERLEAVE_CODE, args=(json.dumps(k1), json.dumps(k2)), timeout=840)
+    if rc != 0:
+        chk.obligation("first-calls interleaving runs completed", False, err[-1500:])
+        return
+    res = json.loads(out.strip().splitlines()[-1])
+    chk.count("first-call-interleavings", res["trials"])
+    chk.count("first-call-interleavings:partner-blocked-on-the-lock", res["steals"])
+    chk.extra["first_call_interleavings"] = res["trials"]
+    for _ in range(res["trials"]):
+        chk.evaluations += 1
+    how = ("fresh interpreter; importlib.reload(hy.core.util); threads A and B traced per opcode in util.hy: A runs k1 bytecodes, "
+           "B runs k2, A runs on, B runs on; each then calls gensym once more")
+    for d in res["dups"][:3]:
+        chk.fail("duplicate-symbols-in-the-first-calls-of-a-process", {"k1": d["k1"], "k2": d["k2"], "total_trials": res["trials"],
+                                                                        "duplicating_trials": len(res["dups"])},
+                 {"symbols": d["symbols"]}, "pairwise distinct symbols", how)
+    for d in res["errors"][:2]:
+        chk.fail("gensym-raised-in-the-first-calls-of-a-process", {"k1": d["k1"], "k2": d["k2"]}, d["symbols"], "symbols", how)
+
+
+def failing_label_oracle(chk, hy):
+    """A calls gensym with a label whose __format__ raises -- after the counter was advanced; B completes a call in
+    that window; C calls afterwards.  Whatever gensym does about the failure, B's and C's symbols must differ."""
+    for variant in ("raise-in-format", "raise-in-format-twice"):
+        in_format, b_done = threading.Event(), threading.Event()
+        res = {}
+
+        class Bad:
+            def __format__(self, spec):
+                in_format.set()
+                b_done.wait(5)
+                raise RuntimeError("label cannot be formatted")
+
+            __str__ = __repr__ = lambda self: "bad"
+
+        def a():
+            try:
+                res["a"] = str(hy.gensym(Bad()))
+            except Exception as e:  # noqa
+                res["a"] = "RAISED " + type(e).__name__
+
+        def b():
+            in_format.wait(5)
+            res["b"] = [str(hy.gensym("fl")) for _ in range(2 if variant.endswith("twice") else 1)]
+            b_done.set()
+        ta, tb = threading.Thread(target=a), threading.Thread(target=b)
+        ta.start()
+        tb.start()
+        ta.join(30)
+        tb.join(30)
+        c = [str(hy.gensym("fl")) for _ in range(3)]
+        syms = res.get("b", []) + c
+        chk.count("failing-label-trials")
+        chk.case(("failing-label", variant), nontrivial=True)
+        if len(set(syms)) != len(syms):
+            chk.fail("duplicate-symbols-after-a-failing-call", {"schedule": "A: gensym(label whose __format__ raises) | B: gensym x%d while A "
+                     "is inside __format__ | A raises | C: gensym x3" % (len(res.get("b", []))), "a_outcome": res.get("a")},
+                     {"symbols": syms}, "pairwise distinct symbols",
+                     "props/c38.py:failing_label_oracle -- threads synchronised with events inside the label's __format__")
+
+
 def stress(chk, hy, rounds, nthreads, ncalls):
     old = sys.getswitchinterval()
     sys.setswitchinterval(1e-6)
@@ -378,6 +520,17 @@ def run(chk):
         stress(chk, hy, 16, 8, 3000)
     else:
         stress(chk, hy, 6, 8, 1500)
+    # ---- a failing call with a successful one in its window; the first calls of a fresh process
+    try:
+        failing_label_oracle(chk, hy)
+    except Exception as e:  # noqa
+        import traceback
+        chk.obligation("failing-label runs completed", False, traceback.format_exc()[-1500:])
+    try:
+        first_calls_oracle(chk, thorough)
+    except Exception as e:  # noqa
+        import traceback
+        chk.obligation("first-calls interleaving runs completed", False, traceback.format_exc()[-1500:])
     # ---- a thread held inside the critical section while another one calls gensym
     try:
         stall_oracle(chk, hy, [2.5, 6.0] if thorough else [2.5])
